@@ -79,20 +79,25 @@ def run(tier):
     for j in range(40 if quick else 600):
         nf = rng.randint(45, 90)
         f = np.linspace(0.03, rng.uniform(0.8, 1.4), nf)
-        cl = rng.uniform(1e-5, 5e-4)
-        th = rng.uniform(0, 360)
-        fp = rng.uniform(0.1, 0.2)
-        E = np.where(f >= fp, cl * f ** -4.0, cl * fp ** -4.0 * (f / fp) ** 6)
-        if rng.random() < 0.3:
-            E[rng.randrange(0, 5)] = np.nan
         B = rng.choice([1, 3])
-        Eb = np.stack([E * (k + 1) for k in range(B)])
-        a1 = np.full((B, nf), 0.8 * math.cos(math.radians(th)))
-        b1 = np.full((B, nf), 0.8 * math.sin(math.radians(th)))
+        # every member of the batch has its own level, peak frequency and direction
+        cls = [rng.uniform(1e-5, 5e-4) for _ in range(B)]
+        ths = [rng.uniform(0, 360) for _ in range(B)]
+        fps = [rng.uniform(0.1, 0.25) for _ in range(B)]
+        rows = []
+        for k in range(B):
+            Ek = np.where(f >= fps[k], cls[k] * f ** -4.0, cls[k] * fps[k] ** -4.0 * (f / fps[k]) ** 6)
+            if rng.random() < 0.3:
+                Ek[rng.randrange(0, 3)] = np.nan
+            rows.append(Ek)
+        Eb = np.stack(rows)
+        cl, th, E = cls[0], ths[0], np.nan_to_num(rows[0])
+        a1 = np.array([np.full(nf, 0.8 * math.cos(math.radians(t))) for t in ths])
+        b1 = np.array([np.full(nf, 0.8 * math.sin(math.radians(t))) for t in ths])
         zz = np.zeros((B, nf))
         s = create_1d_spectrum(f, Eb, np.arange(B) * 3600, np.zeros(B), np.zeros(B), a1=a1, b1=b1, a2=zz, b2=zz, depth=np.full(B, np.inf))
         Ipar, bpar, kpar, apar = rng.uniform(2.0, 3.0), rng.uniform(0.008, 0.016), rng.choice([0.4, 0.41]), rng.uniform(0.008, 0.03)
-        ctx = {"level": cl, "direction": th, "nf": nf, "I": Ipar, "beta": bpar, "kappa": kpar, "charnock": apar, "batch": B}
+        ctx = {"levels": cls, "directions": ths, "peaks": fps, "nf": nf, "I": Ipar, "beta": bpar, "kappa": kpar, "charnock": apar, "batch": B}
         for method in ("peak", "mean"):
             try:
                 out = estimate_u10_from_spectrum(s, method, fmax=float(f[-1]), directional_spreading_constant=Ipar, phillips_constant_beta=bpar,
@@ -105,7 +110,8 @@ def run(tier):
             evals += 1
             distinct.add(("tail", j, method))
             for k in range(B):
-                ust = 8 * math.pi ** 3 * cl * (k + 1) / (4 * G * Ipar * bpar)
+                ust = 8 * math.pi ** 3 * cls[k] / (4 * G * Ipar * bpar)
+                th = ths[k]
                 z0 = apar * ust ** 2 / G
                 u10 = ust / kpar * math.log(10.0 / z0)
                 gu, g10, gd, gc = (float(out["friction_velocity"].values[k]), float(out["u10"].values[k]), float(out["direction"].values[k]),
